@@ -321,6 +321,67 @@ func bufferedOps(rng *rand.Rand, _ bool) {
 	bs.Shutdown()
 }
 
+// a connection whose k-th write stalls and then fails: the sender gives up while writers and Close go on
+type failingConn struct {
+	net.Conn
+	n     int64
+	k     int64
+	stall time.Duration
+}
+
+func (c *failingConn) Write(p []byte) (int, error) {
+	if atomic.AddInt64(&c.n, 1) >= c.k {
+		time.Sleep(c.stall)
+		return 0, errors.New("connection reset by peer")
+	}
+	return c.Conn.Write(p)
+}
+
+type failFactory struct {
+	mock.Factory
+	k     int64
+	stall time.Duration
+}
+
+func (f *failFactory) Connect(o *transport.Options) (transport.Transport, error) {
+	a, b := net.Pipe()
+	go io.Copy(io.Discard, b)
+	return transport.NewTransport(&failingConn{Conn: a, k: f.k, stall: f.stall}, 0, 0), nil
+}
+
+// writes x Close on an async channel whose sender hits a failing transport write while Close is polling
+func sendFailOps(rng *rand.Rand, _ bool) {
+	f := &failFactory{Factory: *mock.NewFactory(), k: int64(1 + rng.Intn(3)), stall: time.Duration(100+rng.Intn(400)) * time.Microsecond}
+	chf := netty.NewAsyncWriteChannel(8, rng.Intn(2) == 0)
+	init := func(ch netty.Channel) { ch.Pipeline().AddLast(sink{}) }
+	bs := netty.NewBootstrap(netty.WithTransport(f), netty.WithChannel(chf), netty.WithClientInitializer(init), netty.WithChildInitializer(init))
+	ch, err := bs.Connect("mock://c:1")
+	if err != nil {
+		panic(err)
+	}
+	var wg sync.WaitGroup
+	for g := 0; g < 2; g++ {
+		wg.Add(1)
+		go func(g int) {
+			defer wg.Done()
+			for i := 0; i < 12; i++ {
+				ch.Write1(bytes.Repeat([]byte{byte(g)}, 64))
+				op()
+			}
+		}(g)
+	}
+	wg.Add(1)
+	go func() {
+		defer wg.Done()
+		time.Sleep(time.Duration(rng.Intn(300)) * time.Microsecond)
+		ch.Close(nil) // polls the queue and the sender's state while the sender is stalled in the failing write
+		op()
+	}()
+	wg.Wait()
+	ch.Close(nil)
+	bs.Shutdown()
+}
+
 var scenarios = []struct {
 	name  string
 	f     func(*rand.Rand, bool)
@@ -332,6 +393,7 @@ var scenarios = []struct {
 	{"bootstrap-async", bootstrapOps, true, 1},
 	{"bootstrap-sync", bootstrapOps, false, 1},
 	{"channel-buffered", bufferedOps, true, 2},
+	{"channel-sendfail", sendFailOps, true, 4},
 	{"idle", idleOps, true, 150},
 	{"pools", poolOps, false, 10},
 }
